@@ -1,3 +1,4 @@
+from fractions import Fraction
 """C04 - tilt carried as metadata is optically identical to tilt in the OPD."""
 from .. import nf
 from ..nf import Poly, Tup, Const, Slice, NONE, TRUE, FALSE
@@ -243,6 +244,43 @@ def dispersion_rule(chk, repo, clause):
         ok = ok and isinstance(p.ret, Tup) and len(p.ret) == 2 and \
             p.ret.items[1] == nf.app('polyval', nf.attr(S('self'), 'trace'), p.ret.items[0])
     chk.ob(clause, 'N-inverse', f.key, 'returned y lies on the trace polynomial at the returned x', ok, '', f.loc())
+    # arc length along the trace: integrand sqrt(1 + (d trace/dx)^2), with the derivative of *the trace polynomial*
+    fd = repo.func('plane.DispersiveTilt._trace_dist_func') if repo.has_func('plane.DispersiveTilt._trace_dist_func') else None
+    if fd is not None:
+        _, dp, _ = analyse(repo, fd)
+        tr = nf.attr(S('self'), 'trace')
+        okd, detd = None, 'undecided: integrand not of the form sqrt(1 + polyval(derivative, x)**2)'
+        for p in returns(dp):
+            pv = [a for a in nf.value_atoms(p.ret) if is_app(a, 'polyval')]
+            if len(pv) != 1 or p.ret != (1 + Poly.atom(pv[0]) ** 2).pow(Fraction(1, 2)):
+                continue
+            coeffs = pv[0][2][0]
+            if coeffs == nf.app('polyder', tr):
+                okd, detd = True, 'polyval(polyder(self.trace), x)'
+                continue
+            ca = coeffs.single_atom() if isinstance(coeffs, Poly) else None
+            if ca is not None and ca[0] == 'attr' and ca[1] == ('sym', 'self'):
+                # a precomputed derivative: evaluate the store in __init__ coefficient by coefficient
+                _, ip, _ = analyse(repo, 'plane.DispersiveTilt.__init__')
+                vals = {fmt(e.data['value']): e.data['value'] for q in ip for e in q.events
+                        if e.kind == 'write' and e.data.get('how') == 'attrstore' and e.data.get('attr') == ca[2]}
+                from ..elem import ElemEval, Unsupported
+                from ..shapes import Shapes
+                k = S('@k')
+                order = nf.attr(tr, 'size') - 1
+                for v in vals.values():
+                    v = nf.subst_value(v, {nf.attr(S('self'), '_trace_order').single_atom(): order})
+                    try:
+                        sh = Shapes({tr.single_atom(): (nf.attr(tr, 'size'),), ('sym', 'trace'): (nf.attr(tr, 'size'),)}, assume_scalar=True)
+                        el = ElemEval(sh).at(nf.subst_value(v, {('sym', 'trace'): tr}), (k,))
+                    except Unsupported as ex:
+                        detd = f'undecided: stored derivative not understood ({ex})'
+                        continue
+                    want = nf.index(tr, k) * (order - k)
+                    okd = el == want
+                    detd = f'derivative coefficient k = {fmt(el)[:100]}; d/dx of the trace (highest power first) has {fmt(want)[:60]}'
+        chk.ob(clause, 'N-formula', fd.key, 'arc-length integrand sqrt(1 + trace\'(x)^2) uses the derivative of the trace polynomial',
+               okd, detd, fd.loc())
     f, paths, _ = analyse(repo, 'plane.DispersiveTilt.shift')
     ok = False
     for p in returns(paths):
